@@ -81,8 +81,11 @@ def BundledWfStmt : Prop :=
   signals.all (fun o => decide (o < 23414)) = true ∧
   inputsInfo = [("externalNullifier", 2, 1), ("identityPathIndex", 26, 20), ("identitySecret", 3, 1), ("messageId", 5, 1),
                 ("pathElements", 6, 20), ("userMessageLimit", 4, 1), ("x", 1, 1)] ∧
-  -- the first five witness signals after the constant are the public ones
-  signals.take 6 = [0, 1, 2, 3, 4, 5] ∧ fileConsumedExactly = true
+  -- witness position 0 is the constant-one input, positions 4 and 5 are the public inputs x and externalNullifier
+  -- (declared at buffer offsets 1 and 2); positions 1..3 are the computed outputs y, root, nullifier
+  nodes[signals[0]!]? = some (.input 0) ∧ nodes[signals[4]!]? = some (.input 1) ∧ nodes[signals[5]!]? = some (.input 2) ∧
+  (∀ k, k ∈ [1, 2, 3] → ∃ a b, nodes[signals[k]!]? = some (.duo .Add a b)) ∧
+  fileConsumedExactly = true
 
 /-- an assignment of the circuit's 46 inputs: the seven named vectors with their declared lengths, canonical values -/
 def Assignment (ins : List (String × List Nat)) : Prop :=
